@@ -29,6 +29,12 @@ def base_dir():
     return _BASE
 
 
+def forget_base():
+    global _BASE, _LOCAL_READY
+    _BASE = None
+    _LOCAL_READY = False
+
+
 def cleanup():
     global _BASE
     if _BASE and os.path.isdir(_BASE):
